@@ -149,7 +149,7 @@ func c11Params(op string) int {
 	case "delete", "erase":
 		return 2
 	case "feature-insert":
-		return 2
+		return 4
 	}
 	return 1
 }
@@ -231,8 +231,14 @@ func c11Apply(st c11Step, heap []gts.Sequence) gts.Sequence {
 		return gts.WithFeatures(x, x.Features().Filter(gts.Or(gts.Key("gene"), gts.Key("source"))))
 	case "feature-insert":
 		f := gts.Feature{Key: "new", Loc: gts.Point(0), Props: gts.Props{{"note", "ins"}}}
-		if st.P == 1 {
+		switch st.P {
+		case 1:
 			f = gts.Feature{Key: "source", Loc: gts.Range(0, maxInt(n, 1)), Props: gts.Props{{"note", "src"}}}
+		case 2:
+			// sorts after every other feature
+			f = gts.Feature{Key: "zlast", Loc: gts.Range(maxInt(n-1, 0), maxInt(n, 1)+3), Props: gts.Props{{"note", "last-a"}}}
+		case 3:
+			f = gts.Feature{Key: "zlast", Loc: gts.Range(maxInt(n-1, 0), maxInt(n, 1)+4), Props: gts.Props{{"note", "last-b"}}}
 		}
 		return gts.WithFeatures(x, x.Features().Insert(f))
 	case "locate":
